@@ -479,8 +479,8 @@ func TestVerifC24(t *testing.T) {
 			"domain": "write-size sequences: singles over sizes; pairs over sizes (quick: pairs over the sizes <= 4097 plus every size >= 65535 paired on either side with 0,1,4097); triples over triple_sizes; (x),(x,s),(s,x) for x in extra_pair_sizes, s in {1,4097}  x content {zeros, repeating text, incompressible pattern} x reader buffer x {plain, client bufferedConn + server pooled bufio} x wrapper; request/echo, close, re-open reversed",
 		})
 		var seqs [][]int
-		for _, a := range sizes {
-			seqs = append(seqs, []int{a})
+		for i := len(sizes) - 1; i >= 0; i-- { // largest single blocks first: a budget cut keeps the 64 KiB boundary
+			seqs = append(seqs, []int{sizes[i]})
 		}
 		if vsched.Rep().Thorough() {
 			for _, a := range sizes {
